@@ -73,7 +73,7 @@ def main():
     t0 = time.time()
     deadline = t0 + job['deadline_s'] if job.get('deadline_s') else None
     out = {'runs': 0, 'steps': 0, 'violations': [], 'foreign': Counter(), 'stats': Counter(), 'probes': Counter(),
-           'cov': set(), 'errors': [], 'digests': {}, 'viol_total': 0, 'flags': {'O': not __debug__, 'Werror': 'error' in sys.warnoptions}}
+           'cov': set(), 'states': set(), 'merges': 0, 'errors': [], 'digests': {}, 'viol_total': 0, 'flags': {'O': not __debug__, 'Werror': 'error' in sys.warnoptions}}
     prop = job['prop']
     profiles = job['profiles']
     samples = []
@@ -98,6 +98,8 @@ def main():
         for k, v in res['probes'].items():
             out['probes'][k] += v
         out['cov'].update(res['cov'])
+        out['states'].update(res.get('state_digests', []))
+        out['merges'] += res.get('merges', 0)
         if job.get('want_digests'):
             out['digests'][str(seed)] = res['digest']
         for v in res['violations']:
@@ -117,6 +119,7 @@ def main():
     out['samples'] = samples
     out['wall'] = time.time() - t0
     out['cov'] = sorted(out['cov'])
+    out['states'] = len(out['states'])
     for k in ('foreign', 'stats', 'probes'):
         out[k] = dict(out[k])
     with open(job['out'], 'w') as f:
